@@ -28,8 +28,8 @@ inline void Jitter(u32 n) {
 #endif
 }
 
-enum LockForm { lLock, lGuard, lGuardSticky, lTryLock, lTryGuard, lGuardRelock, kLockForms };
-const char* const kLockName[] = {"Lock", "Guard", "GuardSticky", "TryLock", "TryGuard", "Guard+re-Lock"};
+enum LockForm { lLock, lGuard, lGuardSticky, lTryLock, lTryGuard, lGuardRelock, lDeferredTryLock, kLockForms };
+const char* const kLockName[] = {"Lock", "Guard", "GuardSticky", "TryLock", "TryGuard", "Guard+re-Lock", "deferred-guard.TryLock"};
 enum UnlockForm { uUnlock, uUnlockOn, uUnlockHere, uDtor, kUnlockForms };
 const char* const kUnlockName[] = {"Unlock", "UnlockOn", "UnlockHere", "guard-dtor"};
 
@@ -53,6 +53,7 @@ struct MWorld {
   std::atomic<long> requests{0};
   std::atomic<long> grants{0};
   std::atomic<long> try_fail{0};
+  std::atomic<int> failed_try_owns{0};  // a guard reported ownership after its TryLock() returned false
   long plain = 0;  // written in every critical section, read in the next one
   std::atomic<int> lost_update{0};
   std::atomic<u32> nlog{0};
@@ -188,6 +189,28 @@ void MutexCase(Ctx& ctx) {
             m.UnlockHere();
           }
         } break;
+        case lDeferredTryLock: {
+          // a deferred guard polling with Guard::TryLock(): a failed attempt must leave the guard not owning
+          yaclib::UniqueGuard<M> g{m, std::defer_lock};
+          while (!g.TryLock()) {
+            w.try_fail.fetch_add(1, kRlx);
+            if (g.OwnsLock()) {
+              w.failed_try_owns.fetch_add(1, kRlx);
+              (void)g.Release();  // do not let the guard release somebody else's lock
+              g = yaclib::UniqueGuard<M>{m, std::defer_lock};
+            }
+            co_await yaclib::On(e1);
+            req = Stamp();
+          }
+          Enter(w, req, id, false);
+          Jitter(rd.cs_yields);
+          Leave(w);
+          if (rd.unlock_form == uUnlock) {
+            co_await g.Unlock();
+          } else if (rd.unlock_form == uUnlockHere) {
+            g.UnlockHere();
+          }
+        } break;
         default: {
           for (;;) {
             auto g = m.TryGuard();
@@ -245,6 +268,8 @@ void MutexCase(Ctx& ctx) {
             w.max_inside.load(kRlx));
   ctx.Check(w.grants.load(kRlx) == total && w.requests.load(kRlx) == total, "granted-exactly-once", "C14",
             "%ld requests, %ld grants, expected %ld", w.requests.load(kRlx), w.grants.load(kRlx), total);
+  ctx.Check(w.failed_try_owns.load(kRlx) == 0, "failed-try-owns", "C14",
+            "%d times a guard owned the lock although its TryLock() had just returned false", w.failed_try_owns.load(kRlx));
   ctx.Check(w.plain == w.grants.load(kRlx), "cs-visibility", "C14,C04",
             "plain counter updated in every critical section is %ld after %ld sections (lost update)", w.plain,
             w.grants.load(kRlx));
